@@ -33,6 +33,7 @@ def main():
     ap.add_argument("--only")
     ap.add_argument("--seed", default="0")
     ap.add_argument("--official", action="store_true")
+    ap.add_argument("--missing", action="store_true", help="only changes with no final_sweep at the current /repo HEAD")
     a = ap.parse_args()
     head = sh(["git", "-C", "/repo", "rev-parse", "--short", "HEAD"]).stdout.strip()
     wt = Path(f"/tmp/seedsweep-wt-{os.getpid()}")
@@ -49,6 +50,9 @@ def main():
             meta = json.loads(mp.read_text())
             pid = re.match(r"C\d\d", meta.get("property") or d.name).group(0)
             if a.only and pid not in a.only.split(","):
+                continue
+            if a.missing and (meta.get("final_sweep") or {}).get("repo_head") == head \
+                    and (meta.get("final_sweep") or {}).get("exit") is not None:
                 continue
             t0 = time.time()
             res = {"repo_head": head, "seed": int(a.seed)}
